@@ -155,7 +155,7 @@ def run(pid, replay=None):
         "samples": samples,
         "evaluations": len(behs) * reps + free_n,
         "distinct_nontrivial": distinct,
-        "rule": "distinct TLC behaviours (directed + -simulate of Rpc.tla, 3 requests, 4 notifications, send failures) replayed with gates, "
+        "rule": "distinct TLC behaviours (directed + -simulate of Rpc.tla: 3 requests, 4 notifications, refused / stuck / broken writes, graceful Close before ForceClose; every other behaviour ends with the retry timers running out) replayed with gates, "
                 "each %d times (select races are resolved by the Go runtime); plus seeded free-running traces" % reps,
         "model_states_exhaustive": mc.distinct if mc else 0,
         "exhaustive": False,
